@@ -28,7 +28,7 @@ TRAITS = "xdsl/traits.py"
 I = z3.IntSort()
 Bo = z3.BoolSort()
 
-VOCAB = Vocab({"first_use": "ref:Use", "parent": "ref", "changed": "bool", "_live_ops": "set:ref"})
+VOCAB = Vocab({"first_use": "ref:Use", "parent": "ref", "changed": "bool", "_live_ops": "set:ref", "regions": "seq:ref:Region"})
 
 IS_TERM = z3.Function("is_terminator", I, Bo)
 IS_SYM = z3.Function("is_symbol", I, Bo)
@@ -195,7 +195,11 @@ class LiveSetSpec(Spec):
 
         prop, file, qualname = PROP, DCE, "LiveSet.propagate_region_liveness"
         modifies = ["dict#dom", "changed"]
+        ghost_modifies = ["visited_regions"]
         trusted = True
+
+        def ghost_update(self, old, st, a, res):
+            return {"visited_regions": z3.Store(old.ghost["visited_regions"], a["region"].z, True)}
 
         def post(self, old, st, a, res):
             ls = a["self"].z
@@ -209,6 +213,7 @@ class LiveSetSpec(Spec):
         a = {"self": VRef(ls, "LiveSet"), "op": VRef(st.declare_input("op", z3.Int("op")), "Operation")}
         self.has_live_user = st.declare_input("has_live_user", z3.Bool("has_live_user"))
         self.nregions = inst.get("regions", 0)
+        st.ghost["visited_regions"] = z3.Const("visited_regions0", z3.ArraySort(I, Bo))
         return a
 
     def bind(self, st, a, inst):
@@ -233,8 +238,141 @@ class LiveSetSpec(Spec):
                     C("changed-kept-otherwise", z3.Implies(old.dict_has(s, o), st.sel("changed", ls) == old.sel("changed", ls)))]
         else:
             out += [C("observable-op-is-kept", z3.Implies(z3.Not(WBTD(o)), st.dict_has(s, o))),
-                    C("op-with-live-user-is-kept", z3.Implies(self.has_live_user, st.dict_has(s, o)))]
+                    C("op-with-live-user-is-kept", z3.Implies(self.has_live_user, st.dict_has(s, o))),
+                    # observable ops may sit inside the regions of a kept op (also of a removable region op kept alive by a user): whenever the op is
+                    # live after the call, liveness has been propagated into every nested region.  (Regions of an op that stays dead need not be visited.)
+                    C("liveness-is-propagated-into-every-region-of-a-live-op",
+                      z3.Implies(st.dict_has(s, o), z3.And(*[st.ghost["visited_regions"][z3.Int(f"region{i}")] for i in range(self.nregions)])) if self.nregions else z3.BoolVal(True))]
         return out
+
+
+
+# ------------------------------------------------------------------ LiveSet.delete_dead
+BLOCKS = z3.Function("blocks_of_region", I, z3.ArraySort(I, I))
+NBLOCKS = z3.Function("n_blocks_of_region", I, I)
+OPS = z3.Function("ops_of_block", I, z3.ArraySort(I, I))
+NOPS = z3.Function("n_ops_of_block", I, I)
+
+
+class DeleteDead(Spec):
+    """
+    LiveSet.delete_dead(region, listener): what is erased, and how -
+      * an operation is erased only if it is NOT live, and (when a listener is given) only after the listener was told;
+      * a block is erased only if it is not the entry block and holds no live operation;
+      * the regions of every live operation are cleaned recursively (callee: this same contract);
+      * `changed` is set whenever something is erased.
+    The block / op sequences are the lists as they were when the loops started (reverse iterators read the predecessor before the body runs).
+    """
+
+    prop, file, qualname = PROP, DCE, "LiveSet.delete_dead"
+    modifies = ["changed"]
+    ghost_modifies = ["removed_log", "erased_ops", "erased_blocks", "cleaned"]
+
+    def __init__(self, callee=False):
+        self.trusted = callee
+        if callee:
+            return
+        spec = self
+
+        def b_erase_block(ex, st, args, kw):
+            from pyvc.engine import Res
+
+            blk = args[0].z if len(args) == 1 else args[1].z
+            j = z3.Int("eb!j")
+            ls = spec._ls
+            ex.oblige(st, "call-pre", "erase_block:a-block-is-erased-only-if-it-is-not-the-entry-block", blk != spec._first, "property")
+            ex.oblige(st, "call-pre", "erase_block:a-block-is-erased-only-if-it-holds-no-live-operation",
+                      forall([j], z3.Implies(z3.And(j >= 0, j < NOPS(blk)), z3.Not(live(st, ls, OPS(blk)[j])))), "property")
+            ex.oblige(st, "call-pre", "erase_block:changed-is-set-when-something-is-erased", st.sel("changed", ls), "property")
+            st.ghost["erased_blocks"] = z3.Store(st.ghost["erased_blocks"], blk, True)
+            return [Res("val", None, st)]
+
+        b_erase_block.ghost_modifies = ["erased_blocks"]
+
+        def b_erase_op(ex, st, args, kw):
+            from pyvc.engine import Res
+
+            o = args[0].z if len(args) == 1 else args[1].z
+            ls = spec._ls
+            ex.oblige(st, "call-pre", "erase_op:an-operation-is-erased-only-if-it-is-not-live", z3.Not(live(st, ls, o)), "property")
+            ex.oblige(st, "call-pre", "erase_op:the-listener-is-told-before-the-operation-is-erased", z3.Or(spec._listener == 0, st.ghost["removed_log"][o]), "property")
+            ex.oblige(st, "call-pre", "erase_op:changed-is-set-when-something-is-erased", st.sel("changed", ls), "property")
+            st.ghost["erased_ops"] = z3.Store(st.ghost["erased_ops"], o, True)
+            return [Res("val", None, st)]
+
+        b_erase_op.ghost_modifies = ["erased_ops"]
+
+        def b_notify(ex, st, args, kw):
+            from pyvc.engine import Res
+
+            st.ghost["removed_log"] = z3.Store(st.ghost["removed_log"], args[-1].z, True)
+            return [Res("val", None, st)]
+
+        b_notify.ghost_modifies = ["removed_log"]
+        self.inline = {"self.is_live": Inline(DCE, "LiveSet.is_live")}
+        self.calls = {"region.erase_block": Builtin(b_erase_block, "Region.erase_block (IR effect: C01)"), "block.erase_op": Builtin(b_erase_op, "Block.erase_op (IR effect: C01)"),
+                      "listener.handle_operation_removal": Builtin(b_notify, "listener notification (C11)"), "self.delete_dead": DeleteDead(callee=True)}
+
+    @property
+    def globals(self):
+        def getattr_(ex, st, base, attr):
+            if attr == "first_block":
+                return VRef(z3.If(NBLOCKS(base.z) > 0, BLOCKS(base.z)[0], 0), "Block")
+            if attr == "blocks":
+                return VSeq(BLOCKS(base.z), NBLOCKS(base.z), "ref", "Block")
+            if attr == "ops":
+                return VSeq(OPS(base.z), NOPS(base.z), "ref", "Operation")
+            if attr == "regions":
+                return VSeq(st.seq_arr("regions", base.z), st.seq_len("regions", base.z), "ref", "Region")
+            return None
+
+        return {"__getattr__": getattr_}
+
+    def setup(self, st, inst):
+        for g in ("removed_log", "erased_ops", "erased_blocks", "cleaned"):
+            st.ghost[g] = z3.Const(g + "0", z3.ArraySort(I, Bo))
+        ls = st.declare_input("self", z3.Int("self"))
+        r = st.declare_input("region", z3.Int("region"))
+        l = st.declare_input("listener", z3.Int("listener"))
+        self._ls, self._listener = ls, l
+        self._first = z3.If(NBLOCKS(r) > 0, BLOCKS(r)[0], 0)
+        return {"self": VRef(ls, "LiveSet"), "region": VRef(r, "Region"), "listener": VRef(l, "PatternRewriterListener")}
+
+    def pre(self, st, a):
+        b, j, o = z3.Ints("dd!b dd!j dd!o")
+        return [A("objects", z3.And(a["self"].z != 0, a["region"].z != 0, st.sel("_live_ops", a["self"].z) != 0)),
+                A("sequences", z3.And(forall([b], NBLOCKS(b) >= 0), forall([b], NOPS(b) >= 0), forall([o], st.seq_len("regions", o) >= 0),
+                                      forall([b, j], z3.Implies(z3.And(j >= 0, j < NBLOCKS(b)), BLOCKS(b)[j] != 0)),
+                                      forall([b, j], z3.Implies(z3.And(j >= 0, j < NOPS(b)), OPS(b)[j] != 0)),
+                                      forall([o, j], z3.Implies(z3.And(j >= 0, j < st.seq_len("regions", o)), st.seq_el("regions", o, j) != 0))))]
+
+    def inv(self, n, entry, st, a, lv):
+        ls = a["self"].z
+        s = entry.sel("_live_ops", ls)
+        x = z3.Int("di!x")
+        base = [A("live-set-unchanged", z3.And(st.sel("_live_ops", ls) == s, st.dict_dom(s) == entry.dict_dom(s))),
+                A("logs-only-grow", z3.And(*[forall([x], z3.Implies(entry.ghost[g][x], st.ghost[g][x])) for g in ("removed_log", "erased_ops", "erased_blocks", "cleaned")])),
+                A("regions-unchanged", z3.And(st.fld("regions#len") == entry.fld("regions#len"), st.arr2("regions#el") == entry.arr2("regions#el")))]
+        return base
+
+    # callee view (recursive call on a nested region)
+    def ghost_update(self, old, st, a, res):
+        if self.trusted:
+            return {"cleaned": z3.Store(old.ghost["cleaned"], a["region"].z, True)}
+        return {}
+
+    def post(self, old, st, a, res):
+        if self.trusted:
+            ls = a["self"].z
+            s = old.sel("_live_ops", ls)
+            x = z3.Int("dp!x")
+            return [A("live-set-unchanged", z3.And(st.sel("_live_ops", ls) == s, st.dict_dom(s) == old.dict_dom(s))),
+                    A("logs-only-grow", z3.And(*[forall([x], z3.Implies(old.ghost[g][x], st.ghost[g][x])) for g in ("removed_log", "erased_ops", "erased_blocks")]))]
+        return [A("done", z3.BoolVal(True))]
+
+    def native_search(self, inst, seed):
+        r = N13.explore("quick", seed)
+        return r["failures"][0] if r["failures"] else None
 
 
 NATIVE = [("dce-vs-liveness-oracle", N13.explore)]
@@ -263,6 +401,7 @@ def make_specs(tier):
     add(LiveSetSpec("is_live"), [{}])
     add(LiveSetSpec("set_live"), [{}])
     add(LiveSetSpec("propagate_op_liveness"), [{"regions": k} for k in range(0, 3)])
+    add(DeleteDead(), [{}])
     return specs
 
 
